@@ -801,7 +801,11 @@ def make_custom_miri(prefixes):
         if replay:
             fi = (json.load(open(replay)).get('failing_input') or {})
             if fi.get('stream') == 'miri' and fi.get('test') in tests: names = [fi['test']]
-        modes = [('stacked-borrows', '')] + ([('tree-borrows', '-Zmiri-tree-borrows'), ('stacked-borrows, 6 schedules', '-Zmiri-many-seeds=0..6')] if tier == 'thorough' else [])
+        # threaded scenarios also run without debug assertions (as a release build: the crate's debug assertions re-read
+        # the count with Acquire, which can supply a happens-before edge that release builds do not have)
+        modes = [('stacked-borrows', ''), ('stacked-borrows, no debug assertions, threaded', '')] + \
+                ([('tree-borrows', '-Zmiri-tree-borrows'), ('stacked-borrows, 6 schedules', '-Zmiri-many-seeds=0..6'),
+                  ('stacked-borrows, no debug assertions, threaded, 6 schedules', '-Zmiri-many-seeds=0..6')] if tier == 'thorough' else [])
         cov['modes'] = [m for m, _ in modes]; cov['names'] = names; cov['tests'] = len(names)
         env0 = miri_env()
         # build once (the test binaries), then run the tests one by one: a report of undefined behaviour ends the process
@@ -810,19 +814,23 @@ def make_custom_miri(prefixes):
         if rc != 0:
             problems.append(('build', 'the miri scenarios do not build against /repo: %s' % vlib.strip_noise(out)[-1200:], dict(kind='unproved', stage='miri-build', output=vlib.strip_noise(out)[-3000:])))
             return dict(coverage=cov, evaluations=0, nontrivial=nontrivial, problems=problems, samples=samples)
-        jobs = [(n, m, fl) for n in names for m, fl in modes if not ('schedules' in m and not re.search(r'thread::spawn', tests[n][1]))]
+        jobs = [(n, m, fl) for n in names for m, fl in modes if not (('schedules' in m or 'threaded' in m) and not re.search(r'thread::spawn', tests[n][1]))]
         def one(job):
             n, m, fl = job
             env = dict(env0)
             flags = fl + (' -Zmiri-ignore-leaks' if tests[n][0] == 'leaky' else '')
             if flags.strip(): env['MIRIFLAGS'] = flags.strip()
+            if 'no debug assertions' in m:
+                env['CARGO_PROFILE_DEV_DEBUG_ASSERTIONS'] = 'false'; env['CARGO_PROFILE_TEST_DEBUG_ASSERTIONS'] = 'false'
+                env['CARGO_TARGET_DIR'] = env0['CARGO_TARGET_DIR'] + '-nda'
             rc, out = vlib.run(['cargo', '+nightly', 'miri', 'test', '--offline', '--test', tests[n][0], '--', '--exact', n], cwd=MIRI_DIR, timeout=600, env=env)
             return job, rc, out
         with concurrent.futures.ThreadPoolExecutor(max_workers=max(1, min(vlib.NPROC, len(jobs)))) as ex:
             results = list(ex.map(one, jobs))
         for (n, m, fl), rc, out in results:
             cov['runs'] += 1
-            good = rc == 0 and re.search(r'test result: ok\. 1 passed', out) is not None
+            # (with several seeds the runs' outputs interleave: the exit status decides)
+            good = rc == 0 and 'Undefined Behavior' not in out and ('schedules' in m or re.search(r'test result: ok\. 1 passed', out) is not None)
             if good:
                 cov['passed'] += 1; nontrivial.add(n); continue
             cov['failed'] += 1
